@@ -55,9 +55,16 @@ def install_walker_env(ctx, eng, nsources=1):
         kind = last_kind(of)
         names = ["Prefix", "RootDir", "CurDir", "ParentDir", "Normal"]
         outs = [Outcome(AggV("Option", 1, [AggV("Component", 4, [OpaqueV("OsStr", None, {"expr": ("last", of)})], "Normal")], "Some"), [kind == 4])]
-        for k in (1, 2, 3):
+        # two-source mode is about per-source state being recomputed, not about spellings: the first source ends in a name,
+        # the second in a name or `..` (the single-source lemma explores every spelling)
+        nsrc = st.ghost.get("nsources", 1)
+        others = (1, 2, 3) if nsrc == 1 else (() if st.ghost.get("cur_source", 0) == 0 else (3,))
+        if nsrc > 1:
+            st.pc.append(z3.Or(kind == 4, kind == 3) if others else kind == 4)
+        for k in others:
             outs.append(Outcome(AggV("Option", 1, [AggV("Component", k, [], names[k])], "Some"), [kind == k], events=[Event("source-ends-in", [names[k]], None)]))
-        outs.append(Outcome(AggV("Option", 0, [], "None"), [kind == 0], events=[Event("source-without-components", [], None)]))
+        if nsrc == 1:
+            outs.append(Outcome(AggV("Option", 0, [], "None"), [kind == 0], events=[Event("source-without-components", [], None)]))
         return outs
     S(r"^<Components<'_> as DoubleEndedIterator>::next_back$", s_next_back)
 
@@ -111,8 +118,10 @@ def install_walker_env(ctx, eng, nsources=1):
         f = pexpr(eng, st, args[1])
         b.attrs["files"] = list(b.attrs["files"]) + [f]
         # add() reads the file: it returns the (partial) error when the file cannot be read or a line cannot be parsed
-        return [Outcome(AggV("Option", 0, [], "None"), events=[Event("gi.add", [f], None)]),
-                Outcome(AggV("Option", 1, [OpaqueV("ignore::Error")], "Some"), events=[Event("gi.add", [f], "err")])]
+        outs = [Outcome(AggV("Option", 0, [], "None"), events=[Event("gi.add", [f], None)])]
+        if st.ghost.get("nsources", 1) == 1:      # the failing read is explored in the single-source lemma
+            outs.append(Outcome(AggV("Option", 1, [OpaqueV("ignore::Error")], "Some"), events=[Event("gi.add", [f], "err")]))
+        return outs
     S(r"^GitignoreBuilder::add::<", s_gi_add)
 
     def s_gi_build(eng, st, callee, args, dty):
